@@ -144,6 +144,13 @@ func histEval(c *Config, h HistCase) string {
 		hd.HbH, hd.E2E = 7, 9
 		var model []atoms.N
 		for i, o := range h.Ops {
+			// a second view of the message as it is BEFORE the operation (a shallow copy with a header
+			// of its own - what a forwarder keeps, or a saved m.AVP restored later): the operation must
+			// not reach it through the AVP list the two share
+			before := *m
+			beforeHdr := *m.Header
+			before.Header = &beforeHdr
+			beforeWant := refcodec.EncodeMessage(hd, atoms.RefNodes(model))
 			switch o.Op {
 			case "new-int":
 				if _, err := m.NewAVP(int(o.Atom.Code), o.Atom.Flags, o.Atom.Vendor, o.Atom.V.Lib()); err != nil {
@@ -194,6 +201,9 @@ func histEval(c *Config, h HistCase) string {
 			want := refcodec.EncodeMessage(hd, atoms.RefNodes(model))
 			if !bytes.Equal(b, want) {
 				return fmt.Sprintf("after op %d (%s): wire image differs from the reference at byte %d: %x vs %x", i, o.Op, firstDiff(b, want), b, want)
+			}
+			if bb, err := before.Serialize(); err != nil || !bytes.Equal(bb, beforeWant) {
+				return fmt.Sprintf("op %d (%s) changed a shallow copy of the message taken before it (the copy shares the AVP list): it now serialises to %x (err %v), before the operation to %x", i, o.Op, bb, err, beforeWant)
 			}
 		}
 		return ""
@@ -362,7 +372,7 @@ func runC02(ctx *ev.Ctx) {
 			ctx.Report("", generalise(what), what+" | case: "+h.Desc(), map[string]interface{}{"hist": h})
 		}
 	})
-	ctx.Rule = rule + " PLUS every sequence of <=4 (thorough 5) assembly operations {NewAVP by int / uint32 / name, AddAVP, InsertAVP, Marshal, a Marshal that is rejected} over seven atoms with payload length mod 4 = 0..3, with and without vendor id (one with a vendor id but no V flag given), checking Header.MessageLength and the reference image after every operation; PLUS Time values with sub-second parts (9 seconds values x 6 fractions: the fraction is dropped). PLUS decode - edit - decode: after a decoded message has been edited (members added to its decoded groups, member-less ones included) a second message of the same wire image must read back as encoded. PLUS complete sweeps (see sweep_* keys). WriteTo images are taken by a destination that lets another message pass through WriteTo on another writer before it consumes its bytes."
+	ctx.Rule = rule + " PLUS every sequence of <=4 (thorough 5) assembly operations {NewAVP by int / uint32 / name, AddAVP, InsertAVP, Marshal, a Marshal that is rejected} over seven atoms with payload length mod 4 = 0..3, with and without vendor id (one with a vendor id but no V flag given), checking Header.MessageLength and the reference image after every operation, and that a shallow copy of the message taken before the operation (sharing its AVP list) still serialises as before; PLUS Time values with sub-second parts (9 seconds values x 6 fractions: the fraction is dropped). PLUS decode - edit - decode: after a decoded message has been edited (members added to its decoded groups, member-less ones included) a second message of the same wire image must read back as encoded. PLUS complete sweeps (see sweep_* keys). WriteTo images are taken by a destination that lets another message pass through WriteTo on another writer before it consumes its bytes."
 	ctx.Assume = []string{"refcodec (independent RFC 6733 encoder/decoder, written from the RFC) is correct; self-tested against the RFC layouts"}
 }
 
